@@ -16,6 +16,14 @@ func indCfgs(ctx *run.Ctx, ind *reg.Indicator, nrand int) []reg.Cfg {
 	out := []reg.Cfg{ind.Default}
 	for i := 1; i <= nrand; i++ {
 		cfg := ind.Rand(gen.New(ctx.Seed, fmt.Sprintf("cfg/%s/%d", ind.Name, i)))
+		if i == nrand && nrand >= 3 {
+			// the last random configuration has LONG periods (x7: up to ~80), where
+			// implementations may switch to another code path
+			cfg.I = append([]int(nil), cfg.I...)
+			for k := range cfg.I {
+				cfg.I[k] *= 7
+			}
+		}
 		cfg.Via = i%2 == 1      // every other random configuration is reached through the public fields of a default instance
 		cfg.Used = (i/2)%2 == 1 // and half of each kind is handed out after it has served another series
 		out = append(out, cfg)
